@@ -328,7 +328,7 @@ def summarise(res):
 def layer_instances(model):
     import jax
     import ginjax.ml as ml
-    kinds = (ml.ConvContract, ml.GroupNorm, ml.VectorNeuronNonlinear)
+    kinds = (ml.ConvContract, ml.GroupNorm, ml.VectorNeuronNonlinear, ml.LayerWrapper)
     return [l for l in jax.tree_util.tree_leaves(model, is_leaf=lambda n: isinstance(n, kinds)) if isinstance(l, kinds)]
 
 
@@ -341,6 +341,8 @@ def _instance_input(layer, D, seed):
         sig = [((k, p), int(v.channels)) for (k, p), v in layer.vanilla_norm.items()]
         sig += [((k, p), int(v.shape[0])) for (k, p), v in layer.scale.items() if k >= 1]
         return "groupnorm", layer.groups, tuple(sorted(sig))
+    if isinstance(layer, ml.LayerWrapper):      # in an equivariant model: a pointwise module applied to every block
+        return "wrapper", None, tuple(sorted(((int(k), int(p)), 2) for (k, p) in layer.modules.keys()))
     sig = [((0, 0), 2)] + [((k, p), int(w.shape[0])) for (k, p), w in layer.weights.items()]
     return "vn", None, tuple(sorted(sig))
 
@@ -352,6 +354,11 @@ def bind_instance(layer, D, graphs, seed):
     import ginjax.geometric as geom
     from harness import convlib
     kind, opt, sig = _instance_input(layer, D, seed)
+    if kind == "wrapper":
+        # rule "act" of EquivCalculus.tla: a pointwise module is well typed on true scalars only (the identity on anything)
+        import equinox as eqx
+        return [("wrapper", [k, p], "bound" if ((k, p) == (0, 0) or isinstance(layer.modules[(k, p)], eqx.nn.Identity)) else "unbound",
+                 "a pointwise module on a block that is not a true scalar is ill typed (rule act)") for (k, p), _ in sig]
     N = 4 if D == 2 else 2
     try:
         x = geom.MultiImage({t: 0.3 + jr.normal(jr.PRNGKey(seed + 100 + j), (c,) + (N,) * D + (D,) * t[0]) for j, (t, c) in enumerate(sig)}, D, True)
